@@ -350,3 +350,71 @@ pub fn diff_sorted(actual: &[String], expected: &[String]) -> (Vec<String>, Vec<
     }
     (missing, extra)
 }
+
+/// The leading *simple* components of a glob expression, as separate expressions: the expression
+/// is split at separators outside any `{}`, `<>` or `[]`; the list ends before the first component
+/// that is a tree wildcard, contains a separator or tree wildcard inside a group, or carries a flag
+/// (a flag's scope crosses components). Every path the glob matches has, at position `i`, a
+/// component matched by the `i`-th of these — so a directory whose own name fails its component can
+/// contain no match ("a glob's component cannot match it"). Built with the public API only.
+pub fn leading_components(expr: &str) -> Vec<Glob<'static>> {
+    let mut comps: Vec<String> = Vec::new();
+    let mut cur = String::new();
+    let mut depth = 0i32;
+    let mut esc = false;
+    for ch in expr.chars() {
+        if esc {
+            cur.push(ch);
+            esc = false;
+            continue;
+        }
+        match ch {
+            '\\' => {
+                cur.push(ch);
+                esc = true;
+            },
+            '{' | '<' | '[' => {
+                depth += 1;
+                cur.push(ch);
+            },
+            '}' | '>' | ']' => {
+                depth -= 1;
+                cur.push(ch);
+            },
+            '/' if depth == 0 => comps.push(std::mem::take(&mut cur)),
+            _ => cur.push(ch),
+        }
+    }
+    comps.push(cur);
+    let mut out = Vec::new();
+    for c in comps {
+        if c.is_empty() || c.contains("**") || c.contains("(?") || c == "." || c == ".." {
+            break;
+        }
+        // a separator inside a group
+        let mut d = 0i32;
+        let mut e = false;
+        let mut inner_sep = false;
+        for ch in c.chars() {
+            if e {
+                e = false;
+                continue;
+            }
+            match ch {
+                '\\' => e = true,
+                '{' | '<' | '[' => d += 1,
+                '}' | '>' | ']' => d -= 1,
+                '/' if d > 0 => inner_sep = true,
+                _ => {},
+            }
+        }
+        if inner_sep {
+            break;
+        }
+        match crate::exec::guarded(|| Glob::new(&c).ok().map(|g| g.into_owned())) {
+            Ok(Some(g)) => out.push(g),
+            _ => break,
+        }
+    }
+    out
+}
